@@ -1,0 +1,42 @@
+//go:build verif
+
+package lossy
+
+// Verification hooks for property C13: the portable and the dispatched
+// quantisation kernels.  Add-only; compiled only with -tags verif.
+
+// VerifArchQuantize runs QuantizeCoeffs (dispatched) or quantizeCoeffsGo
+// (portable) on a copy of in and returns the levels and the nz count.
+func VerifArchQuantize(portable bool, in []int16, sq *SegmentQuant, firstCoeff int) (out [16]int16, nz int) {
+	var src [16]int16
+	copy(src[:], in)
+	if portable {
+		nz = quantizeCoeffsGo(src[:], out[:], sq, firstCoeff)
+	} else {
+		nz = QuantizeCoeffs(src[:], out[:], sq, firstCoeff)
+	}
+	return
+}
+
+// VerifArchQuantizeInPlace is the in == out form used by the encoder.
+func VerifArchQuantizeInPlace(portable bool, in []int16, sq *SegmentQuant, firstCoeff int) (out [16]int16, nz int) {
+	copy(out[:], in)
+	if portable {
+		nz = quantizeCoeffsGo(out[:], out[:], sq, firstCoeff)
+	} else {
+		nz = QuantizeCoeffs(out[:], out[:], sq, firstCoeff)
+	}
+	return
+}
+
+// VerifArchDequant runs DequantCoeffs (dispatched) or dequantCoeffsGo (portable).
+func VerifArchDequant(portable bool, in []int16, sq *SegmentQuant) (out [16]int16) {
+	var src [16]int16
+	copy(src[:], in)
+	if portable {
+		dequantCoeffsGo(src[:], out[:], sq)
+	} else {
+		DequantCoeffs(src[:], out[:], sq)
+	}
+	return
+}
